@@ -272,7 +272,7 @@ pub fn run(ctx: &RunCtx) -> i32 {
         exhaustive: false,
     };
     let secrets = secrets(ctx.seed);
-    let n_groups = ctx.tier.sz(24, 1500);
+    let n_groups = ctx.tier.sz(120, 12_000);
     let budget = ctx.tier.sz(160, 700) as usize;
     let total = par_run(ctx.workers, n_groups, |j, r| {
         let rt = new_runtime();
@@ -295,7 +295,7 @@ pub fn run(ctx: &RunCtx) -> i32 {
                 let pick_all = g.chance(1, 6);
                 let chosen = g.usize_below(scheds.len());
                 for (si, (sclass, pendings, at_end, immediate)) in scheds.into_iter().enumerate() {
-                    if !pick_all && si != chosen {
+                    if (!pick_all && si != chosen) || sample_skip() {
                         continue;
                     }
                     base.framing = Framing { cuts: cuts.clone(), pendings, pending_at_end: at_end, immediate_wake: immediate, error_at: None, stall_at: None };
